@@ -435,11 +435,11 @@ where
             let a_hi_offset = Zeroizing::new(a_hi.iter().map(|s| s * y_powers[n]).collect::<Vec<Scalar>>());
 
             let d_l = if let Some(seed_nonce) = statement.seed_nonce {
-                Zeroizing::new(
-                    (0..extension_degree)
-                        .map(|k| nonce(&seed_nonce, "dL", Some(round), Some(k)))
-                        .collect::<Result<Vec<_>, ProofError>>()?,
-                )
+                let mut d_l = Zeroizing::new(Vec::with_capacity(extension_degree));
+                for k in 0..extension_degree {
+                    d_l.push(nonce(&seed_nonce, "dL", Some(round), Some(k))?);
+                }
+                d_l
             } else {
                 // Zero is allowed by the protocol, but excluded by the implementation to be unambiguous
                 Zeroizing::new(
@@ -449,11 +449,11 @@ where
                 )
             };
             let d_r = if let Some(seed_nonce) = statement.seed_nonce {
-                Zeroizing::new(
-                    (0..extension_degree)
-                        .map(|k| nonce(&seed_nonce, "dR", Some(round), Some(k)))
-                        .collect::<Result<Vec<_>, ProofError>>()?,
-                )
+                let mut d_r = Zeroizing::new(Vec::with_capacity(extension_degree));
+                for k in 0..extension_degree {
+                    d_r.push(nonce(&seed_nonce, "dR", Some(round), Some(k))?);
+                }
+                d_r
             } else {
                 // Zero is allowed by the protocol, but excluded by the implementation to be unambiguous
                 Zeroizing::new(
@@ -542,11 +542,11 @@ where
         let r = Zeroizing::new(Scalar::random_not_zero(range_proof_transcript.as_mut_rng()));
         let s = Zeroizing::new(Scalar::random_not_zero(range_proof_transcript.as_mut_rng()));
         let d = if let Some(seed_nonce) = statement.seed_nonce {
-            Zeroizing::new(
-                (0..extension_degree)
-                    .map(|k| nonce(&seed_nonce, "d", None, Some(k)))
-                    .collect::<Result<Vec<_>, ProofError>>()?,
-            )
+            let mut d = Zeroizing::new(Vec::with_capacity(extension_degree));
+            for k in 0..extension_degree {
+                d.push(nonce(&seed_nonce, "d", None, Some(k))?);
+            }
+            d
         } else {
             // Zero is allowed by the protocol, but excluded by the implementation to be unambiguous
             Zeroizing::new(
@@ -556,11 +556,11 @@ where
             )
         };
         let eta = if let Some(seed_nonce) = statement.seed_nonce {
-            Zeroizing::new(
-                (0..extension_degree)
-                    .map(|k| nonce(&seed_nonce, "eta", None, Some(k)))
-                    .collect::<Result<Vec<_>, ProofError>>()?,
-            )
+            let mut eta = Zeroizing::new(Vec::with_capacity(extension_degree));
+            for k in 0..extension_degree {
+                eta.push(nonce(&seed_nonce, "eta", None, Some(k))?);
+            }
+            eta
         } else {
             // Zero is allowed by the protocol, but excluded by the implementation to be unambiguous
             Zeroizing::new(
